@@ -9,7 +9,8 @@ Import Coq.Strings.String.StringSyntax.
    unknown keys, names with commas / colons / template brackets / any bytes but LF), parse_gcov of its
    bytes succeeds and returns, in order, exactly the sections that list at least one line, each with
    the record its records describe: line -> count (negative -> 0), line -> branch outcomes in record
-   order (taken -> true, nottaken / notexec -> false), function -> (start line, count <> 0). *)
+   order (taken -> true, nottaken / notexec -> false), function -> (start line, count <> 0; a call count printed
+   with a minus sign - a counter above 2^63 in old gcov - is non-zero: negative-reads-as-zero is for lines only). *)
 Theorem C09_text_sound :
   forall f, wf_greport f = true ->
   exists rs, parse_gcov (render_greport f) = Ok rs /\ greport_spec f rs.
@@ -125,7 +126,8 @@ Definition ex_report : greport :=
         (GLcount (bs "04") true (bs "7"), false); (GOther (bs "lcounts") (bs "x"), false);
         (GLcount (bs "5") false (bs "0"), false)];
      mkGSection (bs "empty.h") false [(GFunction (bs "1") (bs "1") (bs "h"), false)];
-     mkGSection (bs "b.c") false [(GLcount (bs "1") false (bs "1"), false)]].
+     mkGSection (bs "b.c") false [(GLcount (bs "1") false (bs "1"), false);
+                                    (GFunction (bs "2") (bs "-9223372036854775808") (bs "k"), false)]].
 Example C09_ex_wf : wf_greport ex_report = true.
 Proof. vm_compute. reflexivity. Qed.
 Example C09_ex_parse :
@@ -137,7 +139,7 @@ Example C09_ex_denote :
   map (fun '(n, c) => (n, cov_to_l c)) (greport_denote ex_report) =
   [(bs "src/a,b:é.c", ([(3, U64_MAX); (5, 0); (4, 0)], [(3, [true; false; false])],
                         [(bs "Foo<int, std::pair<a, b> >::bar(int)", (3, true)); (bs "g", (9, false))]));
-   (bs "b.c", ([(1, 1)], [], []))].
+   (bs "b.c", ([(1, 1)], [], [(bs "k", (2, true))]))].
 Proof. vm_compute. reflexivity. Qed.
 Example C09_ex_overflow_hyp : gdigits (bs "18446744073709551616") = true /\ two64 <= dec_val (bs "18446744073709551616").
 Proof. vm_compute. split; [reflexivity|discriminate]. Qed.
